@@ -84,12 +84,17 @@ def Err.code : Err → Nat
   | .invalidDiscard => 8 | .unmatchedDelimiter => 9 | .unknownTag => 10 | .duplicateKey => 11
   | .duplicateElement => 12
 
-/-- header shared by every value: source range and the cached hash (0 = not computed) -/
+/-- header shared by every value: source range and the cached hash (0 = not computed).
+    `s`/`e` are in remaining-length coordinates (bytes of input left at the start / end of
+    the value); `synth` marks values the reader synthesises, whose C range is (0, 0). -/
 structure Hdr where
   s : Nat
   e : Nat
   hc : UInt64 := 0
+  synth : Bool := false
 deriving Repr, BEq, DecidableEq, Inhabited
+
+@[inline] def mkHdr (s e : Nat) : Hdr := { s := s, e := e }
 
 /-- Mirror of `struct edn_value`.  `md` is the metadata pointer (only the kinds the reader
     can attach metadata to carry one).  Zero-copy slices are stored as the bytes they cover. -/
